@@ -153,6 +153,7 @@ def canonical_facts(raw):
     """fact base with private fields / variants renamed to their role names (pt/canon.py)"""
     from . import canon
     from .rules import setops
+    canon.apply_adts(raw, canon.adt_roles(raw))
     canon.apply(raw, canon.field_roles(raw), canon.viewloc_roles(raw))
     canon.apply_params(raw, canon.param_roles(raw))
     F = factsmod.Facts(raw)
